@@ -94,7 +94,7 @@ Proof.
   intros p f st Hv Hn Hf Hs. unfold sites in Hs. apply filter_In in Hs. destruct Hs as [Hc He].
   rewrite (phrase_eligible _ _ _ Hf) in He. rewrite (phrase_candidates _ _ _ Hf Hc).
   unfold eligible_phrase in He. destruct (find_phrase p (site_nid st)) as [i|] eqn:Hfind; [|discriminate He].
-  unfold eligible_at, local_blame in He.
+  unfold eligible_at, local_blame in He. apply andb_true_iff in He. destruct He as [_ He].
   destruct (check_phrase Exactly (pi_GE i) (pi_G i) (plant_phrase st (pi_ph i))) as [u|n c] eqn:Hchk; [discriminate He|].
   apply andb_true_iff in He. destruct He as [He1 He2]. apply N.eqb_eq in He1. apply cls_eqb_eq in He2.
   unfold blame_program. rewrite sub_phrase_eq.
